@@ -157,7 +157,8 @@ def check_cfg(F, R, cfg):
                 return False
             ds = [d for d in fv_.defs.get(r[1], []) if not d.via_mutref]
             return len(ds) == 1 and ds[0].kind == "assign" and ds[0].rv[0] == "agg" and ds[0].rv[1][1] == SC and root(fv_, ds[0].rv[2][0])[:2] == ("arg", 1)
-        g = Guard("candidate == candidate.reduce()", r"Scalar as core::cmp::PartialEq>::eq$|impl core::cmp::PartialEq for .*Scalar>::eq$", want=1, arg_pred=eq_pred)
+        g = Guard("candidate == candidate.reduce()", r"Scalar as core::cmp::PartialEq>::eq$|impl core::cmp::PartialEq for .*Scalar>::eq$", want=1, arg_pred=eq_pred,
+                  alt=[(r"Scalar as core::cmp::PartialEq>::ne$|impl core::cmp::PartialEq for .*Scalar>::ne$", 0)])
         ok, why = established(F, f, [g])
         (R.ok if ok else R.viol)("C17.from_repr_vartime.canonical", I("from_repr_vartime"), "Some only when Scalar{bytes: repr} equals its reduction" if ok else why, *(() if ok else (fv.loc(),)))
         pay = all(s["kind"] == "agg" and is_candidate(fv, root(fv, s["ops"][0])) for s in sites) and bool(sites)
